@@ -640,8 +640,12 @@ func allowCircular(files []*ast.File) string {
 }
 
 func main() {
+	if len(os.Args) == 3 && os.Args[1] == "-progs" {
+		fmt.Print(progsFile(os.Args[2]))
+		return
+	}
 	if len(os.Args) != 2 {
-		fmt.Fprintln(os.Stderr, "usage: facts <repo>")
+		fmt.Fprintln(os.Stderr, "usage: facts [-progs] <repo>")
 		os.Exit(2)
 	}
 	repo := os.Args[1]
